@@ -114,6 +114,8 @@ func mapAttributeToBinarySet(val *types.Item) (Object, error) {
 		bs.Value = append(bs.Value, val)
 	}
 
+	sortBinaries(bs.Value)
+
 	return &bs, nil
 }
 
